@@ -118,7 +118,17 @@ enum Mode {
 }
 
 fn fuzz(ctx: &Ctx, case: u64, acc: &mut Acc, mode: Mode) -> Verdict {
-    let mut d = Driver::new(ctx, 0xC06 + mode as u64 * 7919, case, Arm::default());
+    fuzz_armed(ctx, case, acc, mode, Arm::default())
+}
+
+/// The large-packet / large-item histories under another check's monitors (C07, C16: in a release build an
+/// item above u16::MAX shows as a corrupted datagram rather than a panic).
+pub fn big_items_case(ctx: &Ctx, case: u64, acc: &mut Acc, arm: Arm) -> Verdict {
+    fuzz_armed(ctx, case, acc, Mode::BigItems, arm)
+}
+
+fn fuzz_armed(ctx: &Ctx, case: u64, acc: &mut Acc, mode: Mode, arm: Arm) -> Verdict {
+    let mut d = Driver::new(ctx, 0xC06 + mode as u64 * 7919, case, arm);
     d.dup_timers = true;
     // replace the instance by one with an arbitrary legal configuration
     let mut cfg = legal_cfg(&mut d.r);
@@ -130,6 +140,7 @@ fn fuzz(ctx: &Ctx, case: u64, acc: &mut Acc, mode: Mode) -> Verdict {
     let me = d.node.id();
     let codec = d.node.codec;
     d.node = Node::new(me, cfg, codec, hcfg, d.r.next());
+    d.watch = crate::mon::Watch::new(codec, arm, false, hcfg);
     let steps = if cfg!(miri) { 30 } else if mode == Mode::BigItems { 40 } else { 250 };
     let mut calls = 0u64;
     for _ in 0..steps {
@@ -188,7 +199,15 @@ fn fuzz(ctx: &Ctx, case: u64, acc: &mut Acc, mode: Mode) -> Verdict {
             }
         };
         calls += 1;
-        panic_verdict(&rec)?;
+        if arm.c07 || arm.c16 {
+            // another check's run: panics are C06's business
+            if rec.res.is_panic() {
+                acc.inconclusive += 1;
+                break;
+            }
+        } else {
+            panic_verdict(&rec)?;
+        }
     }
     d.finish(acc);
     acc.tally("calls_under_catch_unwind", calls);
